@@ -1,1 +1,60 @@
+# c_core.py — streams for C19 (core extensions), C07 (file handles), C11 (chmod expressions).
+from props import Stream
+from gen import all_strings, random_string, line
+from rvlib import hx
+
 PROPS = {}
+
+I_MIN, I_MAX = -(2 ** 63), 2 ** 63 - 1
+
+
+def raw(fn, *args):
+    return "\t".join([fn] + [str(a) for a in args])
+
+
+def c19_streams(tier, rng, ctx):
+    maxlen = 8 if tier == "quick" else 12
+    rng_idx = list(range(-10, 11)) if tier == "quick" else list(range(-14, 15))
+    corners = [I_MIN, I_MIN + 1, I_MAX, I_MAX - 1, -(2 ** 32), 2 ** 32]
+    drops = [(n, k) for n in range(maxlen + 1) for k in rng_idx + corners]
+    slices = [(n, l, r) for n in range(maxlen + 1) for l in rng_idx + corners for r in rng_idx + corners]
+    # the theorem's hypothesis: left not below -len
+    slices_dom = [(n, l, r) for (n, l, r) in slices if l >= -n]
+    lens = list(range(0, maxlen + 1))
+    sts = [
+        Stream("it-drop", "mirror", [raw("it_drop", n, k) for n, k in drops], exhaustive=True,
+               rule="lengths 0..%d x n in %d..%d + isize corners" % (maxlen, rng_idx[0], rng_idx[-1])),
+        Stream("it-drop-spec", "spec", [raw("it_drop", n, k) for n, k in drops], [raw("it_drop_spec", n, k) for n, k in drops]),
+        Stream("it-slice", "mirror", [raw("it_slice", n, l, r) for n, l, r in slices], exhaustive=True,
+               rule="lengths 0..%d x all index pairs + isize corners (including left < -len, outside the statement)" % maxlen),
+        Stream("it-slice-spec", "spec", [raw("it_slice", n, l, r) for n, l, r in slices_dom],
+               [raw("it_slice_spec", n, l, r) for n, l, r in slices_dom],
+               rule="slice vs the inclusive-range definition for left >= -len"),
+    ]
+    for fn in ["it_first", "it_first_result", "it_last_result", "it_single", "it_some", "it_consume"]:
+        sts.append(Stream(fn, "mirror", [raw(fn, n) for n in lens + [100, 1000]], exhaustive=True))
+    alpha = ["a", "F", "f", "A", "L", "S", "E", "0", "é", "İ", "K", "ſ", "😀", "l", "s", "e", " "]
+    strs = list(all_strings(["f", "F", "a", "0", "é", "K", "😀"], 4)) + \
+        ["false", "FALSE", "False", "fAlSe", "0", "00", "false ", " false", "fa1se", "Kalse", "ſalse", "falſe", "FALSİ", "true", "1", ""] + \
+        [random_string(rng, 8, alphabet=alpha, p_sep=0.0) for _ in range(5000)]
+    sts.append(Stream("str-size", "mirror", [line("str_size", s) for s in strs]))
+    sts.append(Stream("str-to-bool", "mirror", [line("str_to_bool", s) for s in strs]))
+    short = list(all_strings(["a", "é", "b", "😀"], 3))
+    pairs = [(x, y) for x in short for y in short] + [(random_string(rng, 10), random_string(rng, 3)) for _ in range(5000)]
+    sts.append(Stream("str-trim-suffix", "mirror", [line("str_trim_suffix", x, y) for x, y in pairs]))
+    sts.append(Stream("opt-has", "mirror", [raw("opt_has", o, x) for o in ["none", 0, 1, 2, 7] for x in [0, 1, 2, 7]]))
+    tw = [(ord(c), s) for s in short + [random_string(rng, 12, alphabet=["a", "$", "}", "é", "b"], p_sep=0.0) for _ in range(3000)] for c in ["a", "$", "é"]]
+    sts.append(Stream("take-while-p", "mirror", ["\t".join(["take_while_ne", str(c), hx(s)]) for c, s in tw]))
+    sts.append(Stream("lowercase-scan", "spec", [raw("lowercase_scan")], [raw("true")],
+                      rule="all 1 112 064 scalar values: to_lowercase can only decide the models' ASCII comparisons through ASCII letters"))
+    return sts
+
+
+PROPS["C19"] = {
+    "streams": c19_streams,
+    "rule": "exhaustive sequence lengths x index pairs plus isize corner values; strings over an alphabet with multi-byte and case-folding characters; "
+            "distinct = distinct argument tuples",
+    "trusted": ["list model of a double-ended iterator (nth / rev().nth consume from the ends)", "ASCII-only model of to_lowercase (validated by lowercase-scan)"],
+    "assumptions": ["Iterator::nth / DoubleEndedIterator::rev / count behave as on lists", "sequence length below 2^63",
+                    "defer: Rust's drop order is assumed (see DESIGN §7 C19); the defer clause is exercised, not proved"],
+}
